@@ -10,6 +10,7 @@ RULE = ('Histories as C01 on removal-enabled graphs of both classes. After every
         'the replay rule of the statement reconstructs the model presence. non-trivial = some pair has >= 2 runs, some '
         'run was produced by merging, and two pairs have events at a common or adjacent instant.')
 ASSUMPTIONS = ['e > t']
+TECHNIQUE = 'model-based PBT: stream invariants and replay round trip (stream -> presence) vs the reference model'
 BUDGET = {'quick': {'cases': 24000, 'seconds': 40}, 'thorough': {'cases': 400000, 'seconds': 540}}
 
 
